@@ -73,6 +73,28 @@ check('C16', 'DESIGN.md 4/C16', MB,
       'and reconnects on the same or a new transport, both servers, against '
       'a per-connection dict model.', TB)
 
+check('C11', 'DESIGN.md 4/C11',
+      MB + '; fault injection (k-th handler invocation raises); metamorphic '
+      'object-graph growth test over n vs 2n client generations',
+      'Generated client generations (incl. refused connects, unanswered '
+      'callbacks, timed-out call(), unfinished binary packets, malformed '
+      'frames, raising handlers) ended by generated causes and repeated 2n '
+      'times: observable emptiness, empty bookkeeping containers, constant '
+      'reachable-object count, and a fresh client served normally.',
+      TB + ' The object-graph walk skips modules, classes, functions, '
+      'logging and harness objects.')
+check('C12', 'DESIGN.md 4/C12',
+      'grammar-based and unstructured fuzzing with Hypothesis (mutated valid '
+      'frames, msgpack maps, engine.io-sniffed values) against a '
+      'non-interference oracle; atheris coverage-guided campaign in the '
+      'thorough tier',
+      'Sequences of hostile frames from one transport interleaved with '
+      'bystander traffic; after every frame the bystanders\' rooms, '
+      'sessions, callbacks, queues and logs must be unchanged, handler '
+      'invocations must carry an offender sid, undecodable frames must reach '
+      'no handler, memory/graph growth must be bounded by the bytes '
+      'received; finally every bystander completes a fixed exchange.', TB)
+
 NOT_BUILT = {}
 
 
@@ -110,7 +132,7 @@ def main():
             'enable': 'no hooks in the repository: all instrumentation is '
                       'done from outside on instances (DESIGN.md 2.9)',
             'baseline_off_cmd': BASELINE_OFF,
-            'source_commits': [],
+            'source_commits': [],  # no hook commits; fix: commits are listed in known_findings.json
             'add_only': True,
         },
         'engines': [{
